@@ -52,7 +52,7 @@ pub fn scenario(family: &str, seed: u64) -> Scenario {
         l.max_mtu = pick(rng, &[1300u16, 1350, 1500, 4000, 9000]);
         l.max_ack_delay_ms = pick(rng, &[25u64, 25, 5, 60, 200]);
     }
-    let mut sc = Scenario { seed, family: family.into(), c, s, net: net.clone(), streams: vec![], close: "c".into(), close_at_us: 0, linger_us: 300_000, deadline_us: 120_000_000, rebinds: vec![], cid_lifetime_s: 0, violation: None, retry: false };
+    let mut sc = Scenario { seed, family: family.into(), c, s, net: net.clone(), streams: vec![], close: "c".into(), close_at_us: 0, linger_us: 300_000, deadline_us: 120_000_000, rebinds: vec![], cid_lifetime_s: 0, violation: None, retry: false, dup_cid_frames: false, rebind_toggle: false };
     match family {
         // clean network, default windows: the happy path
         "clean" => {
@@ -257,6 +257,44 @@ pub fn scenario(family: &str, seed: u64) -> Scenario {
                 sc.rebinds.push((rng.random_range(1_000_000..(n as u64) * 6_000_000), rng.random_bool(0.5)));
             }
             sc.rebinds.sort();
+            sc.dup_cid_frames = rng.random_bool(0.5);
+            sc.rebind_toggle = rng.random_bool(0.4);
+            sc.deadline_us = 400_000_000;
+        }
+        // connection ids reach the end of their lifetime while the client is away on another address, frames are in flight
+        // or lost, and the client comes back: NEW_CONNECTION_ID with a raised retire_prior_to, pending RETIRE frames,
+        // retransmissions of both
+        "cid_expiry" => {
+            net.delay_us = pick(rng, &[5_000u64, 20_000]);
+            net.jitter_us = 0;
+            net.drop = pick(rng, &[0u32, 0, 50]);
+            sc.cid_lifetime_s = 60;
+            for l in [&mut sc.c, &mut sc.s] {
+                l.acid_limit = pick(rng, &[2u64, 3, 4]);
+                l.idle_ms = 30_000;
+            }
+            // ids issued during the handshake expire about here
+            let exp = 60_000_000 + 4 * net.delay_us;
+            let away = exp - pick(rng, &[5_000_000u64, 1_000_000, 400_000]);
+            sc.rebinds.push((away, rng.random_bool(0.5)));
+            let hole_to = exp + pick(rng, &[300_000u64, 800_000, 1_500_000]);
+            if rng.random_bool(0.5) {
+                // the replacement id the client issues after the server moved to the new path stays unacknowledged
+                // (its NEW_CONNECTION_ID or the acknowledgement is lost) until the older ids expire
+                let d = net.delay_us;
+                net.blackhole.push((pick(rng, &["c2s", "both", "s2c"]).to_string(), away + d + d / 2, hole_to));
+            } else if rng.random_bool(0.8) {
+                let hole_from = exp - pick(rng, &[300_000u64, 50_000]);
+                net.blackhole.push((pick(rng, &["both", "s2c", "c2s"]).to_string(), hole_from, hole_to));
+            }
+            sc.rebinds.push((exp + pick(rng, &[100_000u64, 250_000, 500_000, 2_000_000]), false));
+            if rng.random_bool(0.5) { sc.rebinds.push((exp + 4_000_000, false)); }
+            sc.rebind_toggle = rng.random_bool(0.8);
+            sc.dup_cid_frames = rng.random_bool(0.3);
+            // steady small request/response traffic from both sides around the interesting window
+            sc.streams = (0..40).map(|k| StreamSpec {
+                opener: if k % 3 == 0 { "s".into() } else { "c".into() }, bidi: true, send: 300, reply: 300, chunk: 300, reply_chunk: 300,
+                finish: true, start_us: if k < 5 { k as u64 * 10_000_000 } else { 50_000_000 + (k as u64 - 5) * 600_000 + rng.random_range(0..200_000u64) }, ..Default::default() }).collect();
             sc.deadline_us = 400_000_000;
         }
         // connection migration between paths of very different round-trip times while both sides have data in flight
